@@ -431,7 +431,7 @@ Lemma tokscan_ok buf s : forall pos start cur pre,
   forall t, In t (tokscan s pos start cur) -> tok_ok buf t.
 Proof.
   induction s as [|c r IH]; intros pos start cur pre HB HP HS HC HE t HI; cbn [tokscan] in HI.
-  - destruct cur as [|x cur']; [destruct HI|]. destruct HI as [<-|[]]. cbn [t_tok t_pos].
+  - destruct cur as [|x cur']; [destruct HI|]. destruct HI as [<-|[]]. unfold tok_ok; cbn [t_tok t_pos].
     split; [apply rev_nonnil; discriminate|]. split; [rewrite forallb_rev; exact HC|].
     exists pre, []. rewrite HS by discriminate. repeat split; [exact HB | exact HE].
   - destruct (is_wsp c) eqn:EW.
@@ -442,7 +442,7 @@ Proof.
         -- congruence.
         -- right. exists pre, c. auto.
       * destruct HI as [<-|HI].
-        -- cbn [t_tok t_pos]. split; [apply rev_nonnil; discriminate|]. split; [rewrite forallb_rev; exact HC|].
+        -- unfold tok_ok; cbn [t_tok t_pos]. split; [apply rev_nonnil; discriminate|]. split; [rewrite forallb_rev; exact HC|].
            exists pre, (c :: r). rewrite HS by discriminate. repeat split; [exact HB | exact HE | exact EW].
         -- apply (IH (pos + 1) (pos + 1) [] (pre ++ rev (x :: cur') ++ [c])); try assumption.
            ++ rewrite HB. cbn [rev app]. rewrite <- !app_assoc. reflexivity.
@@ -459,7 +459,7 @@ Qed.
 
 Theorem all_tokens_ok buf t : In t (all_tokens buf) -> tok_ok buf t.
 Proof.
-  apply (tokscan_ok buf buf 0 0 [] []); try reflexivity; [congruence | left; reflexivity].
+  apply (tokscan_ok buf buf 0 0 [] []); try reflexivity. left; reflexivity.
 Qed.
 
 (* consequences used for bounds *)
@@ -514,13 +514,13 @@ Lemma nthN_some {A} (l : list A) n : n < lenN l -> exists x, nthN n l = Some x /
 Proof.
   revert n; induction l as [|y l IH]; intros n H; cbn [lenN nthN] in *; [lia|].
   destruct (n =? 0) eqn:E; [exists y; split; [reflexivity|left; reflexivity]|].
-  destruct (IH (N.pred n)) as (x & A & B); [lia|]. exists x. split; [exact A| right; exact B].
+  destruct (IH (N.pred n)) as (x & Hx & Bx); [lia|]. exists x. split; [exact Hx| right; exact Bx].
 Qed.
 
 Lemma tok_get_ok arr i : (0 <= i < Z.of_N (lenN arr))%Z -> exists t, tok_get arr i = Val t /\ In t arr.
 Proof.
   intros H. unfold tok_get. destruct (i <? 0)%Z eqn:E; [lia|].
-  destruct (nthN_some arr (Z.to_N i)) as (x & A & B); [lia|]. rewrite A. exists x. auto.
+  destruct (nthN_some arr (Z.to_N i)) as (x & Hx & Bx); [lia|]. rewrite Hx. exists x. auto.
 Qed.
 
 Lemma cstr_at_ok buf off : off <= lenN buf -> cstr_at buf off = Val (dropN off buf).
